@@ -20,10 +20,6 @@ NextRank == /\ r <= C.n /\ RankDone /\ r' = r + 1 /\ k' = 1 /\ UNCHANGED <<cid, 
 Next == Step \/ NextRank
 Spec == Init /\ [][Next]_vars
 
-\* per-rank monotonicity of both runs along the accepted prefix
-MonotoneInv == (r <= C.n /\ k >= 2) =>
-                 /\ (k - 1 <= Len(C.online[r]) => Monotone(C.online[r], k - 1))
-                 /\ (k - 1 <= Len(C.replay[r]) => Monotone(C.replay[r], k - 1))
 Accepted == r = C.n + 1
 Stuck    == r <= C.n /\ ~RankDone /\ ~StepOk(C, r, k)
 Verdict  == /\ (Accepted => PrintT(<<"VERDICT", cid, "ok", 0, 0, maxd>>))
